@@ -83,6 +83,10 @@ structure Params where
   aFails   : Nat    -- active `fails` threshold (Provision turns < 1 into 1)
   dynamic  : Bool   -- the upstreams come from a dynamic source (`dynamic_upstreams`): they are provisioned and
                     -- released by every loop iteration, which then is a pool holder of its own (see `CfgSt`)
+  aExpect  : Nat := 0      -- active `expect_status` (0 = not set: any 2xx passes; < 100 = a class)
+  aBody    : Bool := false -- active `expect_body` set (the correspondence uses the regular expression `^UP`)
+  aMax     : Nat := 0      -- active `max_size`: how much of the answer's body is read (0 = all of it)
+  aHdr     : Bool := false -- active `headers` carries the header the scripted health endpoint may insist on
   deriving DecidableEq, Repr
 
 /-- healthchecks.go:590-596 — does `countFailure` do anything? -/
